@@ -230,6 +230,8 @@ def scenario(e3, shape, name, known):
         ("block_values_in_push_order", "two values pushed by one thread appear in one block in the opposite order", z3.Or(*disorder) if disorder else z3.BoolVal(False), None),
         ("no_panic", "push / read can panic", sc.reach("panic"), None),
     ]
+    # an oracle that does not apply to this shape (no reader of that kind) is not a query
+    props = [p for p in props if not z3.is_false(z3.simplify(p[2]))]
     kn = {}
     if "K3" in known:
         props.append(("K3_push_into_detached_block", "known finding K3: value lost because the pusher claims a slot in a chain that a clear detached after the pusher loaded tail", z3.And(lost, k3), None))
